@@ -117,6 +117,47 @@ theorem C19_positive_det (tags : AList NT (AList DP ℝ)) :
   obtain ⟨z0, _, rfl⟩ := hz
   exact Real.exp_pos _
 
+/-- **C19_prim_weight (det).** Which entry of the tensor feeds which rule: for every non-terminal `S`
+    and every primitive rule `P` of `S`, the tag is read at the position `posOf L S P` — the one
+    `encode` marks for `(S, P)` (`C19_encode_det`) — of the slice-wise normalised tensor, and
+    `exp(tag) = c · exp(y_P) / Σ_{Q primitive rule of S} exp(y_Q)`: the softmax re-normalised over the
+    rules derivable from `S`, with `c = 1 - variable_probability` when `S` has variables or
+    constants and `c = 1` otherwise.  (`prim` is the table `P ↦ y_P`, `y_P = (x[start:start+length])[index P]`.) -/
+theorem C19_prim_weight_det (L : Layer) (v ε : ℝ) (tvo : Bool) (rules : AList NT (AList DP (List NT)))
+    (x : List ℝ) (tags : AList NT (AList DP ℝ))
+    (h : tensor2logProbDet L v ε tvo rules x = some tags) (hwf : wfRules rules = true) :
+    List.Forall₂ (fun e t => t.1 = e.1 ∧
+      ∃ prim : AList DP ℝ, AList.keys prim = (AList.keys e.2).filter (kindIs .prim) ∧
+        ∀ P ∈ AList.keys e.2, P.kind = .prim →
+          ∃ pos y, posOf L e.1 P = some pos ∧ AList.lookup P prim = some y
+            ∧ (∃ key start length sym i, AList.lookup e.1 L.real2abs = some key
+                ∧ AList.lookup key L.abs2index = some (start, length, sym) ∧ AList.lookup P sym = some i
+                ∧ pos = start + i ∧ (slice (normalize L.abs2index x) start length)[i]? = some y)
+            ∧ AList.lookup P t.2 = some (y + Real.log
+                ((if countKind .var e.2 + countKind .const e.2 = 0 then 1 else 1 - v) / expSum prim))) rules tags := by
+  have hf := allSomeL_forall₂_of _ (fun e => (AList.keys e.2).Nodup) rules tags h (wfRules_mem hwf)
+  refine hf.imp ?_
+  intro e t ⟨hnd, het⟩
+  have h1 : t.1 = e.1 := by
+    unfold tagEntryDet at het
+    cases h1 : AList.lookup e.1 L.real2abs with
+    | none => simp [h1] at het
+    | some key =>
+      cases h2 : AList.lookup key L.abs2index with
+      | none => simp [h1, h2] at het
+      | some idx =>
+        obtain ⟨start, length, sym⟩ := idx
+        simp only [h1, h2] at het
+        cases h3 : primTags sym (slice (normalize L.abs2index x) start length) (AList.keys e.2) [] with
+        | none => simp [h3] at het
+        | some prim => simp only [h3, Option.some.injEq] at het; rw [← het]
+  refine ⟨h1, ?_⟩
+  obtain ⟨prim, hk, hP⟩ := tagEntryDet_prim L v ε tvo _ e t het hnd
+  refine ⟨prim, hk, ?_⟩
+  intro P hPm hkP
+  obtain ⟨pos, y, a1, a2, a3, a4⟩ := hP P hPm hkP
+  exact ⟨pos, y, a1, a2, a3, by rw [expSum_eq_mass]; exact a4⟩
+
 /-- **C19_consistent (det).** If `log_probability t` returns `lp` then the program has a
     derivation from the start symbol and `exp lp` is the product of the converted weights
     (`to_prob_det_grammar`) along that derivation — `derivWeightDet`, the probability the
